@@ -202,6 +202,16 @@ pub fn run(r: &mut Rec) {
                     g.u[2] = Uniform::new_inclusive(&g.u[0], &g.u[1]).sample(&mut s);
                     Ret::none().raw("words", &used_json(&s))
                 });
+                r.op("gen_range", &format!("U_gen_range_{}", name), &[u(0), u(1)], &[u(2)], "\"incl\":false", |g| {
+                    let mut s = Script::new(script.clone());
+                    g.u[2] = s.gen_range(g.u[0].clone()..g.u[1].clone());
+                    Ret::none().raw("words", &used_json(&s))
+                });
+                r.op("gen_range", &format!("U_sample_single_{}", name), &[u(0), u(1)], &[u(2)], "\"incl\":false", |g| {
+                    let mut s = Script::new(script.clone());
+                    g.u[2] = <BigUint as SampleUniform>::Sampler::sample_single(&g.u[0], &g.u[1], &mut s);
+                    Ret::none().raw("words", &used_json(&s))
+                });
                 r.op("gen_range", &format!("U_gen_range_incl_{}", name), &[u(0), u(1)], &[u(2)], "\"incl\":true", |g| {
                     let mut s = Script::new(script.clone());
                     g.u[2] = s.gen_range(g.u[0].clone()..=g.u[1].clone());
